@@ -268,6 +268,15 @@ def gen_T8(tier):
                define='one == 1', defs=dict(one='1'))
     yield dict(t='T8def', decl=decl, tree=('<', ('+', 'v2', 'x'), 'y'),
                define='v2 == z', defs=dict(v2='z'))
+    # the same operator names with other bodies, in later contexts of the
+    # same process
+    yield dict(t='T8def', decl=decl, tree=('=', 'x', 'one'),
+               define='one == 2', defs=dict(one='2'))
+    yield dict(t='T8def', decl=decl, tree=('<', ('+', 'v2', 'x'), 'y'),
+               define='v2 == x', defs=dict(v2='x'))
+    yield dict(t='T8def', decl=decl, tree=('=>', 'a', 'b'),
+               define='a == x < y\nb == z = 0',
+               defs=dict(a=('<', 'x', 'y'), b=('=', 'z', '0')))
     # primes in an Automaton
     P = lambda e: ("'", e)  # noqa
     primes = [
@@ -305,6 +314,11 @@ def gen_T8(tier):
                    define="pos == x > 0\nboth == pos /\\ p",
                    defs=dict(pos=('>', 'x', '0'),
                              both=('/\\', 'pos', 'p')))
+    for f in [('=>', 'pos', P('pos')), ('\\/', 'both', P('pos'))]:
+        yield dict(t='T8defprime', decl=adecl, aut=True, tree=f,
+                   define="pos == x < 1\nboth == pos \\/ p",
+                   defs=dict(pos=('<', 'x', '1'),
+                             both=('\\/', 'pos', 'p')))
     for sa in SHAPES:
         yield dict(t='T8prime', decl=dict(a=sa), aut=True,
                    tree=('=', P('a'), 'a'))
